@@ -94,6 +94,10 @@ def search(seed=0, N=400):
     evil_vals = [{"name": evil, "secret": "S", "flag": True, "xs": ["a"], "ds": [{"k": "v"}], "title": "t"},
                  {"name": "n", "secret": "S", "flag": True, "xs": [evil, "{{>inc3}}"], "ds": [{"k": evil}], "title": "t", "opt": "{{#if flag}}X{{/if}}"},
                  {"name": "{{>inc3}}", "secret": "S", "flag": True, "xs": ["{{index}}"], "ds": [{"k": "{{?secret}}"}], "title": "{{name|upper}}"}]
+    # another renderer with custom filters exists in the process (a filter named like a default word, and an override of a built-in):
+    # its configuration must not change what the default renderers below make of the same templates
+    with contextlib.redirect_stdout(io.StringIO()):
+        Ribosome(silent=True, filters={"dflt": lambda x: "<custom>", "upper": lambda x: "<<" + str(x) + ">>"})
     for phase, ctxs in (("A", plain_vals), ("B", evil_vals)):
         for tmpl in gen_templates(rnd, N):
             for ctx in ctxs:
